@@ -151,6 +151,7 @@ impl HarnessSource {
         height: BlockHeight,
         params_version: u32,
         params: &ConsensusParameters,
+        old: Option<&(u32, ConsensusParameters)>,
     ) -> Self {
         let chain_id = params.chain_id();
         let pending = txs
@@ -159,21 +160,29 @@ impl HarnessSource {
                 let max_gas = TransactionExt::max_gas(&p.tx, params).unwrap_or(0);
                 let size = u32::try_from(metered_size(&p.tx)).unwrap_or(u32::MAX);
                 let raw = || MaybeCheckedTransaction::Transaction(p.tx.clone());
-                let tx = match p.checked {
-                    CheckedMode::Raw => raw(),
-                    CheckedMode::Checked | CheckedMode::CheckedOtherVersion => {
-                        match p.tx.clone().into_checked_basic(height, params) {
-                            Ok(c) => {
-                                let v = if p.checked == CheckedMode::Checked {
-                                    params_version
-                                } else {
-                                    params_version.wrapping_add(7)
-                                };
-                                MaybeCheckedTransaction::CheckedTransaction(c.into(), v)
-                            }
-                            Err(_) => raw(),
-                        }
-                    }
+                // (height to check at, parameters to check under, version label)
+                let how: Option<(BlockHeight, &ConsensusParameters, u32)> = match p.checked {
+                    CheckedMode::Raw => None,
+                    CheckedMode::Checked => Some((height, params, params_version)),
+                    CheckedMode::CheckedOtherVersion => Some((height, params, params_version.wrapping_add(7))),
+                    // what a pool does that checked the transaction one block earlier
+                    CheckedMode::CheckedEarlier => Some((
+                        height.pred().unwrap_or(height),
+                        params,
+                        params_version,
+                    )),
+                    // what a pool does that checked the transaction before the last upgrade
+                    CheckedMode::CheckedOld => match old {
+                        Some((v, old_params)) => Some((height.pred().unwrap_or(height), old_params, *v)),
+                        None => Some((height, params, params_version)),
+                    },
+                };
+                let tx = match how {
+                    None => raw(),
+                    Some((h, prm, v)) => match p.tx.clone().into_checked_basic(h, prm) {
+                        Ok(c) => MaybeCheckedTransaction::CheckedTransaction(c.into(), v),
+                        Err(_) => raw(),
+                    },
                 };
                 let id = tx.id(&chain_id);
                 Pending {
